@@ -339,7 +339,7 @@ type ServerSpec struct {
 }
 
 type Scn struct {
-	Form    string       `json:"form"` // global | wrapper
+	Form    string       `json:"form"` // global | wrapper | split (like global, one global layer4 block per server)
 	Servers []ServerSpec `json:"servers"`
 }
 
@@ -475,7 +475,11 @@ func (sc *Scn) Caddyfile() string {
 		return strings.Join(out, "\n") + "\n"
 	}
 	out = append(out, "{", "\tlayer4 {")
-	for _, s := range sc.Servers {
+	for i, s := range sc.Servers {
+		if sc.Form == "split" && i > 0 {
+			// several global layer4 blocks are combined: each server in a block of its own
+			out = append(out, "\t}", "\tlayer4 {")
+		}
 		out = append(out, "\t\t"+strings.Join(s.Listen, " ")+" {")
 		out = append(out, serverBody(s, "\t\t\t")...)
 		out = append(out, "\t\t}")
@@ -561,7 +565,7 @@ func judge(sc *Scn, fail func(sig, msg string)) {
 		fail("adapted-json-differs:"+classOf(sc), fmt.Sprintf("the Caddyfile\n%sadapts (at %v) to\n%s\nbut states\n%s", cf, path, gb, wb))
 	}
 	// round trip of the layer4 part through the Go structures
-	if sc.Form == "global" {
+	if sc.Form != "wrapper" {
 		raw, _ := json.Marshal(sub)
 		var app layer4.App
 		if err := json.Unmarshal(raw, &app); err != nil {
@@ -750,6 +754,13 @@ func scenarios(tier string, yield func(any) bool) {
 		if !yield(&Scn{Form: "global", Servers: []ServerSpec{s1, s2}}) {
 			return
 		}
+		if !yield(&Scn{Form: "split", Servers: []ServerSpec{s1, s2}}) {
+			return
+		}
+		s3 := ServerSpec{Listen: []string{":7003"}, Routes: []RouteSpec{{H: []HRef{h0}}}}
+		if !yield(&Scn{Form: "split", Servers: []ServerSpec{s1, s2, s3}}) {
+			return
+		}
 	}
 }
 
@@ -759,7 +770,7 @@ func main() {
 	runner.Main(&runner.Harness{
 		ID:    "C15",
 		Level: "model_checking",
-		Rule:  fmt.Sprintf("building blocks extracted from the repository's adaptation test vectors (%d matcher-set fragments, %d handler fragments, each with the JSON stated for it); configurations composed exhaustively: every set x every handler, every set under 'not', every handler inside tee and inside subroute (guarded and unguarded), ordered pairs of named sets (OR in one route, reuse in another, a route without matchers), ordered pairs of handlers, matching_timeout, two servers with several listen addresses, global-option and listener-wrapper forms, and every fragment with the option lines of one of its blocks reordered (every ordered pair of options moved to the front, the reversal; ordered triples in thorough; JSON compared up to the order of list elements; an order the parser rejects is not judged); each printed as Caddyfile and as expected JSON and pushed through the real adapter; states = distinct composed configurations", len(sets), len(handlers)),
+		Rule:  fmt.Sprintf("building blocks extracted from the repository's adaptation test vectors (%d matcher-set fragments, %d handler fragments, each with the JSON stated for it); configurations composed exhaustively: every set x every handler, every set under 'not', every handler inside tee and inside subroute (guarded and unguarded), ordered pairs of named sets (OR in one route, reuse in another, a route without matchers), ordered pairs of handlers, matching_timeout, two servers with several listen addresses, global-option (servers in one global layer4 block or one block each) and listener-wrapper forms, and every fragment with the option lines of one of its blocks reordered (every ordered pair of options moved to the front, the reversal; ordered triples in thorough; JSON compared up to the order of list elements; an order the parser rejects is not judged); each printed as Caddyfile and as expected JSON and pushed through the real adapter; states = distinct composed configurations", len(sets), len(handlers)),
 		Assumptions: []string{
 			"the JSON the maintainers' test vectors state for a fragment is the specification of that fragment; composition (routes, named sets, nesting, servers, wrapper form) is specified by the harness's own printers",
 			"determinism is judged on 6 adaptations of each configuration (map iteration order is not controlled)",
